@@ -58,6 +58,23 @@ _p("C14", "CrossHair/z3 symbolic execution of the search functions with lazy fil
    ["mincount/maxcount further than 1 from the match count (behave like the nearest tested value for comparison-based code)", "fastcache installed (cachedsearch then needs hashable arguments); here the pass-through decorator is what runs",
     "attribute values of other types than int/None"], COMMON_ASSUME + ["filter/stop/attribute lookups are pure per node"])
 
+_p("C09", "CrossHair/z3 symbolic execution of RenderTree (rows for 8 styles, 4 childiters, unbounded symbolic maxlevel, lazy drop flags) plus table-driven text/repr obligations",
+   CH + ". rows: maxlevel is None or an unbounded z3 Int; the filtering childiter's per-node answers are fresh solver Booleans; all eight styles are rendered inside each path. "
+   "text/repr: attribute values come from a table (they go through str()/splitlines()/%r, which would realise symbolic strings) - the solver contributes shape/start/option coverage there.",
+   "one path = (shape, start, childiter, maxlevel region, drop answers) for rows; (shape, start, value-table rotation) for text; non-trivial = >= 3 rendered rows (rows) / >= 2 rows (text)",
+   "trees with <= 4 nodes, every start node; styles: 4 built-ins + custom widths 1,2,3 + style given as class; childiter list/reversed/sorted/filtering; maxlevel None or any int; 12 attribute value kinds",
+   "trees with <= 5 nodes (rows), <= 5 (text), same options",
+   ["symbolic (arbitrary) attribute strings", "custom styles whose three strings differ in length (excluded by the statement)", "deeper trees than the bound"], COMMON_ASSUME)
+
+_p("C10", "CrossHair/z3 symbolic execution of DictExporter/DictImporter with fully symbolic attribute values and unbounded symbolic maxlevel",
+   CH + ". Attribute values are unconstrained symbolic int/str/bool (or None) that the code must pass through (checked by identity, then equality); maxlevel is None or any z3 Int; "
+   "six combinations of attriter x childiter x dictcls (each option value at least twice) are exported inside each path; the filtering childiter's answers are lazy solver Booleans.",
+   "one path = (shape, start, attribute layout, maxlevel region, drop answers) for export; (shape, layout, nodecls, explicit-empty flag) for import; non-trivial = >= 3 nodes",
+   "trees with <= 4 nodes, every start node, 0-2 attributes per node from a 5-key pool (incl. a private key), values symbolic; nodecls AnyNode/Node/user NodeMixin class",
+   "trees with <= 5 nodes, same",
+   ["attribute keys 'parent'/'children' and non-identifier keys (excluded by the statement)", "LightNodeMixin classes (no __dict__)", "values of container types (passed through untouched like any object)"],
+   COMMON_ASSUME)
+
 MUT_OUT = ["more nodes than the bound", "hooks that themselves mutate the tree (re-entrancy)", "concurrent mutation",
            "iterables with side effects while being consumed by children="]
 
@@ -167,6 +184,21 @@ def obligations(prop, tier):
             for fn, body in (("findall", "findall_body"), ("find", "findall_body"), ("findall_by_attr", "by_attr_body"), ("find_by_attr", "by_attr_body")):
                 out.append(dict(name=("cached_" if cached else "") + fn, module="harness.searching", body=body, cfg={"fn": fn, "N": N, "cached": cached}, depth=6 if q else 7,
                                 bounds="N<=%d" % N, picked="n, parent vector, start, attribute name, count offsets", symbolic="maxlevel, value, node values (unbounded ints), presence/stop/filter flags"))
+    elif prop == "C09":
+        N = 4 if q else 5
+        out.append(dict(name="rows", module="harness.render", body="rows_body", cfg={"N": N}, depth=5 if q else 6, bounds="N<=%d" % N,
+                        picked="n, parent vector, start, childiter; styles looped in-path", symbolic="maxlevel (unbounded int), drop flags of the filtering childiter"))
+        out.append(dict(name="text", module="harness.render", body="text_body", cfg={"N": N}, depth=4, bounds="N<=%d" % N,
+                        picked="n, parent vector, start, value-table rotation", symbolic="-"))
+        out.append(dict(name="reprs", module="harness.render", body="repr_body", cfg={"N": 3 if q else 4}, depth=4, bounds="N<=%d" % (3 if q else 4),
+                        picked="n, parent vector, class, attribute keys/values from tables", symbolic="-"))
+    elif prop == "C10":
+        N = 4 if q else 5
+        for cls in ("anynode", "node", "user"):
+            out.append(dict(name="export_" + cls, module="harness.dictio", body="export_body", cfg={"N": N if cls == "anynode" else N - 1, "cls": cls}, depth=5, bounds="N<=%d" % (N if cls == "anynode" else N - 1),
+                            picked="n, parent vector, start, attribute layout; options looped in-path", symbolic="attribute values (int/str/bool), maxlevel, drop flags"))
+        out.append(dict(name="import_roundtrip", module="harness.dictio", body="import_body", cfg={"N": N}, depth=5, bounds="N<=%d" % N,
+                        picked="nodecls, n, parent vector, attribute layout, explicit empty children", symbolic="attribute values"))
     return out
 
 
